@@ -109,6 +109,19 @@ def valid_filename(value: str) -> str:
     return f"mb_{value}"
 
 
+def _free_module_name(name: str) -> str:
+    """Return a module name no earlier import uses.
+
+    Models keep references to the functions of their generated module; registering
+    another document under the same name would make those functions unpicklable.
+    """
+    candidate, n = name, 0
+    while candidate in sys.modules:
+        n += 1
+        candidate = f"{name}_{n}"
+    return candidate
+
+
 def read(file: Path) -> Model:
     """Import a metabolic model from an SBML file.
 
@@ -120,6 +133,6 @@ def read(file: Path) -> Model:
 
     """
     model = pysbml.load_and_transform_model(file)
-    out_name = valid_filename(file.stem)
+    out_name = _free_module_name(valid_filename(file.stem))
     model_fn = import_from_path(out_name, _codegen(out_name, model))
     return model_fn()
